@@ -5,6 +5,8 @@ From Coq Require Export List String Ascii ZArith NArith Bool.
 Export ListNotations.
 Open Scope string_scope.
 Open Scope list_scope.
+(* [length] means the list one throughout; strings use [String.length]. *)
+Notation length := List.length (only parsing).
 
 (** * Go strings are byte strings; [String.compare] is Go's [<] on strings. *)
 Definition str := string.
